@@ -98,6 +98,10 @@ LastYieldExists ==
      LET y == hist[Len(hist)] IN
      HasEdge([out |-> out, inn |-> inn, dir |-> qry.dir, rej |-> {}], <<y[1], y[2], y[3]>>)
 
+\* liveness under weak fairness (small constants): once started, every loop ends
+CSpecFair == CSpecEmit /\ WF_cursorvars(ScriptStep) /\ WF_cursorvars(StepIter) /\ WF_cursorvars(StepSearch) /\ WF_cursorvars(Finish)
+EveryLoopEnds == (phase = "run") ~> (phase = "end")
+
 \* termination: a loop never yields more than the edges that ever existed allow
 Bounded == Len(hist) <= 2 * (MaxEdges + MaxScript) * (Cardinality(Nodes) + 1)
 MirrorKept == Mirror(out, inn)
